@@ -110,3 +110,10 @@ func (o *Out) Case(input, impl string) {
 }
 
 func (o *Out) Close() { o.w.Flush(); o.f.Close() }
+
+// Row writes tab-separated columns (input, impl[, expected]) for oracle-style stages.
+func (o *Out) Row(cols ...string) {
+	fmt.Fprintln(o.w, strings.Join(cols, "\t"))
+	o.w.Flush()
+	o.N++
+}
